@@ -2,6 +2,7 @@ import Pcore.Proofs.FilesSound
 import Pcore.Proofs.FilesOnce
 import Pcore.Proofs.FilesPath
 import Pcore.Proofs.FilesGlobal
+import Pcore.Proofs.FilesModule
 /-!
 # C15 — File-based loading maps names to definition files faithfully
 
@@ -29,7 +30,13 @@ Full statement / proved / missing
 * `C15_found_iff_global`, `C15_absent_global`, `C15_error_global` (proved; PARTIAL with respect to `C15_found_iff_full` /
   `C15_absent_full` / `C15_error_full`) — the "if" half, absence and error location for the global loader used as the
   context's loader, for a name the cache does not hold yet whose first origin is not a type set.
-* missing: the "if" half through module and dependency loaders (parent-first routing, type-set search); it is false as
+* `C15_found_iff_module`, `C15_found_iff_dependency`, `C15_module_outcome`, `C15_dependency_outcome` (proved; partial) —
+  the same for a module-relative name `Mod::X` through the module's loader and through the dependency loader, when the
+  global loader has no file for `Mod::X` nor for `Mod`: the whole parent-first route (global miss, parent type-set search,
+  placeholder, module index, definition into the context's loader, the dependency loader answering what `SetEntry`
+  returns — fix 80f753b) is evaluated symbolically; found ⇔ the module's file defines the name, errors name that file,
+  the file is the only read.
+* missing: the "if" half for deeper names, type sets and ancestors that exist (type-set parent search); it is false as
   stated for layouts that define one name twice (`C15_duplicate_redefine`, known finding C15-duplicate-redefine) and the
   error of a misnamed file carries no line (`C15_misnamed_no_line`, known finding C15-misnamed-no-line).  Termination
   (`diverges` unreachable for enough fuel) is not proved; the correspondence run never observed it.  The OS (Walk order,
@@ -264,6 +271,89 @@ example : idx gCfg .g (keyOf ["THING"]) = [["env", "types", "Thing.pp"]] ∧ sys
     idx gCfg .g (keyOf ["Stray"]) = [] ∧ loadS 7 gCfg {} ["Stray"] = (.notfound, ({} : St).put .g ["stray"] none) ∧
     (loadS 7 gCfg {} ["Bad"]).1 = .failed (.reported "PARSE_ERROR" (some ["env", "types", "bad.pp"]) 3) ∧
     (loadS 7 gCfg {} ["Ns", "Deep"]).1 = .failed (.reported "PCORE_WRONG_DEFINITION" (some ["env", "types", "ns", "deep.pp"]) 0) := by
+  decide
+
+/-! ## a module-relative name through the module loader and through the dependency loader (partial) -/
+
+/-- the outcome (found / wrong definition / parse error with its line / no definition / unreadable) is decided by the
+    first origin of the key in the module's index, and that file is the only one read -/
+theorem C15_module_outcome (cfg : Cfg) (mod : String) (hv : cfg.via = .m mod) (hm : isGlobalMod mod = false)
+    (a b : String) (s : St) (n : Nat)
+    (hparts : partsOf [a, b] = some [mod, lowerS b]) (hsys : sysLoad [a, b] = none)
+    (hg1 : s.get .g (keyOf [a, b]) = none) (hg2 : s.get .g (keyOf [a]) = none)
+    (hm1 : s.get (.m mod) (keyOf [a, b]) = none)
+    (hi1 : idx cfg .g (keyOf [a, b]) = []) (hi2 : idx cfg .g (keyOf [a]) = [])
+    (p : Path) (ps : List Path) (hi : idx cfg (.m mod) (keyOf [a, b]) = p :: ps)
+    (hnt : ∀ nm ts, bodyAt cfg.tree p ≠ some (.typ .typeset nm ts)) :
+    (loadS (n+9) cfg s [a, b]).1 = plainOutcomeAt cfg (.m mod) [a, b] ∧
+    (loadS (n+9) cfg s [a, b]).2.reads = s.reads ++ [p] :=
+  module_plain cfg mod hv hm a b s n hparts hsys hg1 hg2 hm1 hi1 hi2 p ps hi hnt
+
+theorem C15_found_iff_module (cfg : Cfg) (mod : String) (hv : cfg.via = .m mod) (hm : isGlobalMod mod = false)
+    (a b : String) (s : St) (n : Nat)
+    (hparts : partsOf [a, b] = some [mod, lowerS b]) (hsys : sysLoad [a, b] = none)
+    (hg1 : s.get .g (keyOf [a, b]) = none) (hg2 : s.get .g (keyOf [a]) = none)
+    (hm1 : s.get (.m mod) (keyOf [a, b]) = none)
+    (hi1 : idx cfg .g (keyOf [a, b]) = []) (hi2 : idx cfg .g (keyOf [a]) = [])
+    (p : Path) (ps : List Path) (hi : idx cfg (.m mod) (keyOf [a, b]) = p :: ps)
+    (hnt : ∀ nm ts, bodyAt cfg.tree p ≠ some (.typ .typeset nm ts)) :
+    (∃ d, (loadS (n+9) cfg s [a, b]).1 = .found d) ↔
+      ((∃ k nm ts, bodyAt cfg.tree p = some (.typ k nm ts) ∧ keyOf nm = keyOf [a, b]) ∨ bodyAt cfg.tree p = some .bare) := by
+  rw [(module_plain cfg mod hv hm a b s n hparts hsys hg1 hg2 hm1 hi1 hi2 p ps hi hnt).1, plainOutcomeAt_found]
+  constructor
+  · rintro ⟨p', ps', h', hb⟩
+    rw [hi] at h'; cases h'; exact hb
+  · intro hb; exact ⟨p, ps, hi, hb⟩
+
+theorem C15_dependency_outcome (cfg : Cfg) (mod : String) (hv : cfg.via = .d) (hmods : cfg.mods.contains mod = true)
+    (hm : isGlobalMod mod = false) (a b : String) (s : St) (n : Nat)
+    (hparts : partsOf [a, b] = some [mod, lowerS b]) (hsys : sysLoad [a, b] = none)
+    (hd1 : s.get .d (keyOf [a, b]) = none)
+    (hg1 : s.get .g (keyOf [a, b]) = none) (hg2 : s.get .g (keyOf [a]) = none)
+    (hm1 : s.get (.m mod) (keyOf [a, b]) = none)
+    (hi1 : idx cfg .g (keyOf [a, b]) = []) (hi2 : idx cfg .g (keyOf [a]) = [])
+    (p : Path) (ps : List Path) (hi : idx cfg (.m mod) (keyOf [a, b]) = p :: ps)
+    (hnt : ∀ nm ts, bodyAt cfg.tree p ≠ some (.typ .typeset nm ts)) :
+    (loadS (n+11) cfg s [a, b]).1 = plainOutcomeAt cfg (.m mod) [a, b] ∧
+    (loadS (n+11) cfg s [a, b]).2.reads = s.reads ++ [p] :=
+  dependency_plain cfg mod hv hmods hm a b s n hparts hsys hd1 hg1 hg2 hm1 hi1 hi2 p ps hi hnt
+
+/-- through the dependency loader the first lookup already finds the type (fixed defect 80f753b: it used to answer the
+    module loader's nil placeholder) -/
+theorem C15_found_iff_dependency (cfg : Cfg) (mod : String) (hv : cfg.via = .d) (hmods : cfg.mods.contains mod = true)
+    (hm : isGlobalMod mod = false) (a b : String) (s : St) (n : Nat)
+    (hparts : partsOf [a, b] = some [mod, lowerS b]) (hsys : sysLoad [a, b] = none)
+    (hd1 : s.get .d (keyOf [a, b]) = none)
+    (hg1 : s.get .g (keyOf [a, b]) = none) (hg2 : s.get .g (keyOf [a]) = none)
+    (hm1 : s.get (.m mod) (keyOf [a, b]) = none)
+    (hi1 : idx cfg .g (keyOf [a, b]) = []) (hi2 : idx cfg .g (keyOf [a]) = [])
+    (p : Path) (ps : List Path) (hi : idx cfg (.m mod) (keyOf [a, b]) = p :: ps)
+    (hnt : ∀ nm ts, bodyAt cfg.tree p ≠ some (.typ .typeset nm ts)) :
+    (∃ d, (loadS (n+11) cfg s [a, b]).1 = .found d) ↔
+      ((∃ k nm ts, bodyAt cfg.tree p = some (.typ k nm ts) ∧ keyOf nm = keyOf [a, b]) ∨ bodyAt cfg.tree p = some .bare) := by
+  rw [(dependency_plain cfg mod hv hmods hm a b s n hparts hsys hd1 hg1 hg2 hm1 hi1 hi2 p ps hi hnt).1,
+    plainOutcomeAt_found]
+  constructor
+  · rintro ⟨p', ps', h', hb⟩
+    rw [hi] at h'; cases h'; exact hb
+  · intro hb; exact ⟨p, ps, hi, hb⟩
+
+def modCfg (via : Lid) : Cfg :=
+  { mods := ["other", "mymod"], via := via,
+    tree := [(["modules", "mymod", "types", "Thing.pp"], .typ .alias ["Mymod", "Thing"] []),
+             (["modules", "mymod", "types", "bad.pp"], .malformed 2),
+             (["modules", "other", "types", "thing.pp"], .bare)] }
+
+/-- non-vacuity: the hypotheses hold from the empty caches and the conclusions are the interesting ones (found in another
+    letter case, a syntax error with its line, a bare expression taking the requested name) -/
+example : partsOf ["MYMOD", "thing"] = some ["mymod", lowerS "thing"] ∧ sysLoad ["MYMOD", "thing"] = none ∧
+    idx (modCfg (.m "mymod")) .g (keyOf ["MYMOD", "thing"]) = [] ∧ idx (modCfg (.m "mymod")) .g (keyOf ["MYMOD"]) = [] ∧
+    idx (modCfg (.m "mymod")) (.m "mymod") (keyOf ["MYMOD", "thing"]) = [["modules", "mymod", "types", "Thing.pp"]] ∧
+    (loadS 9 (modCfg (.m "mymod")) {} ["MYMOD", "thing"]).1 = .found ⟨.alias, ["Mymod", "Thing"]⟩ ∧
+    (loadS 11 (modCfg .d) {} ["MYMOD", "thing"]).1 = .found ⟨.alias, ["Mymod", "Thing"]⟩ ∧
+    (loadS 11 (modCfg .d) {} ["Mymod", "Bad"]).1 =
+      .failed (.reported "PARSE_ERROR" (some ["modules", "mymod", "types", "bad.pp"]) 2) ∧
+    (loadS 11 (modCfg .d) {} ["other", "THING"]).1 = .found ⟨.alias, ["other", "THING"]⟩ := by
   decide
 
 /-! ## negation witnesses for the known findings -/
